@@ -68,6 +68,7 @@ type FuncSpec struct {
 	AssignsNone bool
 	Holds    []string
 	Allocates map[string]bool
+	DeadReturn map[int]bool // return statements (by ordinal) the contract declares unreachable
 	Trusted  bool
 	Pure     bool
 	NoSafety bool // do not emit zero-annotation safety obligations
@@ -127,7 +128,7 @@ var clauseKeywords = map[string]bool{
 	"props": true, "trusted": true, "pure": true, "requires": true, "ensures": true,
 	"modifies": true, "ghost": true, "use": true, "on": true, "after": true, "before": true,
 	"loop": true, "invariant": true, "hint": true, "apply": true, "decreases": true, "nonnil": true, "lock": true,
-	"lockinv": true, "guarantee": true, "rely": true, "fresh": true, "exit": true, "flows": true, "assigns": true, "assumes": true, "holds": true, "allocates": true, "nilable": true, "nosafety": true, "using": true,
+	"lockinv": true, "guarantee": true, "rely": true, "fresh": true, "exit": true, "flows": true, "assigns": true, "assumes": true, "holds": true, "allocates": true, "deadreturn": true, "nilable": true, "nosafety": true, "using": true,
 }
 
 type rawClause struct {
@@ -337,6 +338,21 @@ func parseContractFile(path string, requirePrefix bool) (*ContractFile, error) {
 				return nil, errf(rc, "modifies outside func")
 			}
 			curF.Modifies = append(curF.Modifies, splitNames(rc.rest)...)
+		case "deadreturn":
+			// deadreturn 3 4: these return statements are unreachable by design
+			if curF == nil {
+				return nil, errf(rc, "deadreturn outside func")
+			}
+			if curF.DeadReturn == nil {
+				curF.DeadReturn = map[int]bool{}
+			}
+			for _, n := range splitNames(rc.rest) {
+				k, err := strconv.Atoi(n)
+				if err != nil {
+					return nil, errf(rc, "deadreturn takes return-statement ordinals")
+				}
+				curF.DeadReturn[k] = true
+			}
 		case "allocates":
 			if curF == nil {
 				return nil, errf(rc, "allocates outside func")
